@@ -29,6 +29,9 @@ pub enum Enc {
 pub struct UStr {
     pub pieces: Vec<Piece>,
     pub enc: Enc,
+    /// an empty string in its other wire form: Latin-1 `01 00` instead of `00`, UCS-2 a bare `80` instead of `81 00 00`
+    #[serde(default)]
+    pub alt_empty: bool,
 }
 
 impl UStr {
@@ -36,6 +39,7 @@ impl UStr {
         UStr {
             pieces: s.chars().map(Piece::Ch).collect(),
             enc,
+            alt_empty: false,
         }
     }
 
@@ -66,12 +70,20 @@ impl UStr {
 
     pub fn has_escape(&self) -> bool { self.pieces.iter().any(|p| !matches!(p, Piece::Ch(_))) }
 
-    pub fn encode(&self, out: &mut Vec<u8>) {
+    /// Encode without knowing what follows: the bare `80` form of the empty UCS-2 string is not used.
+    pub fn encode(&self, out: &mut Vec<u8>) { self.encode_before(out, Some(1)) }
+
+    /// Encode in front of a field whose first wire byte is `next` (None: end of the datagram). A reader cannot tell a bare `80`
+    /// followed by a byte 01 from the "stray 01" form, so the bare form is only used when `next` is not 01 (domain restriction).
+    pub fn encode_before(&self, out: &mut Vec<u8>, next: Option<u8>) {
         let units = self.units();
         match self.enc {
             Enc::Latin1 => {
                 if units.is_empty() {
-                    out.push(0);
+                    out.push(if self.alt_empty { 1 } else { 0 });
+                    if self.alt_empty {
+                        out.push(0);
+                    }
                     return;
                 }
                 out.push(units.len() as u8 + 1);
@@ -81,6 +93,11 @@ impl UStr {
                 out.push(0);
             }
             Enc::Ucs2 { stray01 } => {
+                if units.is_empty() && self.alt_empty && !stray01 && next != Some(1) {
+                    // zero code units: nothing follows the length byte
+                    out.push(0x80);
+                    return;
+                }
                 out.push(0x80 | (units.len() as u8 + 1));
                 if stray01 {
                     out.push(1);
@@ -108,13 +125,19 @@ impl UStr {
         let n = self.units().len() as u8;
         match self.enc {
             Enc::Latin1 => {
-                if n == 0 {
+                if n == 0 && !self.alt_empty {
                     0
                 } else {
                     n + 1
                 }
             }
-            Enc::Ucs2 { .. } => 0x80 | (n + 1),
+            Enc::Ucs2 { stray01 } => {
+                if n == 0 && self.alt_empty && !stray01 {
+                    0x80
+                } else {
+                    0x80 | (n + 1)
+                }
+            }
         }
     }
 }
@@ -154,11 +177,12 @@ pub fn ustr(max: usize) -> impl Strategy<Value = UStr> {
         any::<bool>(),
         any::<bool>(),
         prop_oneof![2 => Just(0usize..1), 5 => Just(1usize..12), 4 => Just(12usize..40), 3 => Just(24usize..127)],
+        any::<bool>(),
     )
-        .prop_flat_map(move |(latin, stray01, range)| {
-            (prop::collection::vec(piece(latin), range), Just(latin), Just(stray01))
+        .prop_flat_map(move |(latin, stray01, range, alt)| {
+            (prop::collection::vec(piece(latin), range), Just(latin), Just(stray01), Just(alt))
         })
-        .prop_map(move |(mut pieces, latin, stray01)| {
+        .prop_map(move |(mut pieces, latin, stray01, alt_empty)| {
             // trim to the unit budget
             let mut used = 0;
             let mut keep = 0;
@@ -174,6 +198,7 @@ pub fn ustr(max: usize) -> impl Strategy<Value = UStr> {
             let mut u = UStr {
                 pieces,
                 enc: if latin { Enc::Latin1 } else { Enc::Ucs2 { stray01 } },
+                alt_empty,
             };
             u.disambiguate();
             u
@@ -251,12 +276,16 @@ pub fn u2_state() -> impl Strategy<Value = U2State> {
             // the protocol has no sequence numbers: two byte-identical datagrams of one list cannot be told from one
             // datagram delivered twice, so exact duplicates of a (key, value) pair are outside the domain
             let mut rules = rules;
+            // (compared without the empty-string wire form, which does not always change the bytes)
             let mut seen: Vec<(UStr, UStr)> = Vec::new();
             rules.retain(|kv| {
-                if seen.contains(kv) {
+                let mut norm = kv.clone();
+                norm.0.alt_empty = false;
+                norm.1.alt_empty = false;
+                if seen.contains(&norm) {
                     false
                 } else {
-                    seen.push(kv.clone());
+                    seen.push(norm);
                     true
                 }
             });
@@ -312,12 +341,12 @@ impl U2State {
         let mut o = self.header.to_vec();
         o.push(0);
         o.extend_from_slice(&self.server_id.to_le_bytes());
-        self.ip.encode(&mut o);
+        self.ip.encode_before(&mut o, Some(self.game_port as u8));
         o.extend_from_slice(&self.game_port.to_le_bytes());
         o.extend_from_slice(&self.query_port.to_le_bytes());
-        self.name.encode(&mut o);
-        self.map.encode(&mut o);
-        self.game_type.encode(&mut o);
+        self.name.encode_before(&mut o, Some(self.map.length_byte()));
+        self.map.encode_before(&mut o, Some(self.game_type.length_byte()));
+        self.game_type.encode_before(&mut o, Some(self.num_players as u8));
         o.extend_from_slice(&self.num_players.to_le_bytes());
         o.extend_from_slice(&self.max_players.to_le_bytes());
         o
@@ -327,10 +356,12 @@ impl U2State {
         let items = self
             .rules
             .iter()
-            .map(|(k, v)| {
+            .enumerate()
+            .map(|(i, (k, v))| {
                 let mut o = Vec::new();
-                k.encode(&mut o);
-                v.encode(&mut o);
+                k.encode_before(&mut o, Some(v.length_byte()));
+                // (the next pair may or may not share the datagram: its key's first byte is taken as what follows)
+                v.encode_before(&mut o, self.rules.get(i + 1).map(|(k2, _)| k2.length_byte()));
                 o
             })
             .collect();
@@ -343,7 +374,7 @@ impl U2State {
             .iter()
             .map(|p| {
                 let mut o = p.id.to_le_bytes().to_vec();
-                p.name.encode(&mut o);
+                p.name.encode_before(&mut o, Some(p.ping as u8));
                 o.extend_from_slice(&p.ping.to_le_bytes());
                 o.extend_from_slice(&p.score.to_le_bytes());
                 o.extend_from_slice(&p.stats_id.to_le_bytes());
